@@ -289,6 +289,7 @@ def run(report, p):
     r6.check(okr, rd, st[0] if st else rd.node, "the reader does not assign the text under <structure> to the structure digest of the matching entry", construct="reader structure")
 
     # ---- rules shared with other properties (same mechanism, same rule, reported under every property it can break)
+    include_rules(report, p, 'c13', ['R13.2'], 'the directory hashes are evaluated over exactly the non-ignored entries: the ignore match must be made on the path relative to the pattern root at every depth')
     include_rules(report, p, 'c02', ['R2.1'], 'directory hashes are evaluated over exactly the traversed (non-ignored) entries')
     include_rules(report, p, 'c01', ['R1.3', 'R1.4'], "digests are decoded to bytes by the format's own codec")
     report.not_decided += ["numeric equality with an independent evaluation of the definition on concrete trees", "rename / content-edit relations at run time"]
